@@ -189,13 +189,16 @@ func genC16(cfg runCfg, e *emitter, rng *rand.Rand) {
 		for r := 0; r <= fr; r++ {
 			s := gpos(r, fr, 0)
 			w := uint64(1) << uint(fr-r)
-			cand = append(cand, s, s+1, s+w-1, s+w/2)
-			if s > 0 {
+			cand = append(cand, s, s+w-1)
+			if r%4 == 0 {
+				cand = append(cand, s+1, s+w/2)
+			}
+			if s > 0 && r%2 == 1 {
 				cand = append(cand, s-1)
 			}
 		}
 		cand = append(cand, 1<<63, ^uint64(0), ^uint64(0)-1, uint64(2)<<uint(fr), (uint64(2)<<uint(fr))-1, (uint64(2)<<uint(fr))-2)
-		for i := 0; i < 6; i++ {
+		for i := 0; i < 4; i++ {
 			cand = append(cand, rng.Uint64(), rng.Uint64()>>uint(63-fr))
 		}
 		var ns []uint64
